@@ -8,28 +8,23 @@ From V Require Import Common.Base J2KGeo.GeoModel J2KGeo.GeoProofsSamples T1.T1M
   Pipe.PipeProofsT2 Pipe.PipeProofsMain Pipe.PipeT1ojThm Pipe.PipeT1zeroThm.
 Require V.T2.T2ProofsProg.
 
-(* ---- the end-to-end theorem (partial: two named hypotheses remain) ---- *)
+(* ---- the end-to-end theorem (partial: ONE named hypothesis remains, hyp_block_sizes: no
+        code-block compresses to more than 65535 bytes) ---- *)
 
 Theorem C04_pipe_roundtrip_partial : forall p, pp_scope p -> forall samples, samples_ok p samples ->
   let pix := pack_image p samples in
-  hyp_coeff_fit p pix -> hyp_t2_encodes p pix ->
+  hyp_block_sizes p pix ->
   exists tile, pipe_encode_tile p pix = Ok tile /\ pipe_decode_tile p tile = Ok pix.
 Proof. exact pipe_roundtrip_partial. Qed.
 Print Assumptions C04_pipe_roundtrip_partial.
 
-(* the arithmetic side condition is discharged by the DWT growth lemma for 2*levels + P <= 24 *)
-Theorem C04_pipe_roundtrip_partial_growth : forall p, pp_scope p -> forall samples, samples_ok p samples ->
-  2 * pp_levels p + pp_prec p <= 24 ->
-  let pix := pack_image p samples in
-  hyp_t2_encodes p pix ->
-  exists tile, pipe_encode_tile p pix = Ok tile /\ pipe_decode_tile p tile = Ok pix.
-Proof. exact pipe_roundtrip_partial_growth. Qed.
-Print Assumptions C04_pipe_roundtrip_partial_growth.
-
-Theorem C04_pipe_coeff_fit_from_growth : forall p samples, pp_scope p -> samples_ok p samples ->
-  2 * pp_levels p + pp_prec p <= 24 -> hyp_coeff_fit p (pack_image p samples).
-Proof. exact hyp_coeff_fit_growth. Qed.
-Print Assumptions C04_pipe_coeff_fit_from_growth.
+(* the arithmetic side condition (|wavelet coefficient| < 2^25: `<<= 6` stays inside int32, T1
+   sees at most 25 magnitude planes) holds for every tuple in scope, by the sharp multilevel
+   growth bound DwtGrowth2.fwd53_ml_bound_sharp *)
+Theorem C04_pipe_coefficients_fit : forall p samples, pp_scope p -> samples_ok p samples ->
+  hyp_coeff_fit p (pack_image p samples).
+Proof. exact hyp_coeff_fit_holds. Qed.
+Print Assumptions C04_pipe_coefficients_fit.
 
 (* ---- the stage interfaces that had to be proved for the chain ---- *)
 
@@ -111,6 +106,16 @@ Theorem C04_pipe_t2_delivers : forall p, pp_scope p -> forall coeffs,
 Proof. exact t2_delivers. Qed.
 Print Assumptions C04_pipe_t2_delivers.
 
+(* EncodePackets returns no error on the store built by buildTilePacketEncoderAt *)
+Theorem C04_pipe_t2_encodes : forall p, pp_scope p -> forall coeffs,
+  length coeffs = Z.to_nat (pp_nc p) -> (forall d, In d coeffs -> zlen d = pp_w p * pp_h p) ->
+  (forall d, In d coeffs -> forall v, In v d -> - 2 ^ 25 < v < 2 ^ 25) ->
+  (forall d, In d coeffs -> forall r cb, In (r, cb) (enc_blocks p d) -> zlen (eb_data (eblk p r cb)) <= 65535) ->
+  forall cells, pipe_cells p coeffs = Ok cells -> 0 <= pp_order p <= 4 ->
+  exists eps cells', enc_packets (pp_order p) 1 (pp_levels p + 1) (pp_nc p) (pipe_pgeom p) cells = Ok (eps, cells') /\ small_packets eps.
+Proof. exact t2_encodes. Qed.
+Print Assumptions C04_pipe_t2_encodes.
+
 (* ---- non-vacuity: a concrete 2x2 RGB image (RCT, one DWT level, RPCL) through the whole
         pipeline by vm_compute, and the hypotheses of the partial theorem on it ---- *)
 
@@ -124,21 +129,44 @@ Proof. eexists. split; [vm_compute; reflexivity|]. split; [vm_compute; reflexivi
 
 Example C04_pipe_example_hypotheses :
   pp_scope ex_p /\ samples_ok ex_p ex_samples /\
-  hyp_coeff_fit ex_p (pack_image ex_p ex_samples) /\ hyp_t2_encodes ex_p (pack_image ex_p ex_samples).
+  hyp_block_sizes ex_p (pack_image ex_p ex_samples).
 Proof.
   split; [unfold pp_scope, pow2_size, ex_p; cbn; lia|].
   split.
   { split; [reflexivity|]. unfold ex_samples, ex_p, in_sample_range. cbn. repeat constructor; lia. }
+  intros coeffs Ec. vm_compute in Ec. injection Ec as <-. intros d Hd r cb Hin b Eb.
+    assert (Hb : forallb (fun d0 => forallb (fun rc : Z * cblock =>
+                     match enc_code_block ex_p (fst rc) (snd rc) (cb_cbx (snd rc)) (cb_cby (snd rc)) with
+                     | Ok b0 => zlen (eb_data b0) <=? 65535 | _ => false end) (enc_blocks ex_p d0))
+                   [[-33; 77; -58; 99]; [-136; -104; 153; -37]; [-70; 49; 263; 148]] = true) by (vm_compute; reflexivity).
+    rewrite forallb_forall in Hb. specialize (Hb d Hd). rewrite forallb_forall in Hb. specialize (Hb (r, cb) Hin).
+    cbn [fst snd] in Hb. rewrite Eb in Hb. apply Z.leb_le in Hb. exact Hb.
+Qed.
+
+(* the premises of the T1 theorems on a concrete 2x2 block (the values 1, 0, -2, 0 scaled by 64) *)
+Example C04_pipe_example_t1 :
+  let cs := [1; 0; -2; 0] in
+  length cs = (2 * 2)%nat /\ (forall c, In c cs -> - 2 ^ 25 < c < 2 ^ 25) /\
+  0 < find_max_bitplane (map (fun c => c * 64) cs) + 1 - 6 /\
+  T1Bytes.enc_plain 2 2 1 0 6 4 (map (fun c => c * 64) cs) = Ok [12; 79] /\
+  T1Bytes.dec_with_options 2 2 1 0 2 true false [12; 79] 4 = Ok [3; 0; -5; 0].
+Proof.
+  cbv zeta. split; [reflexivity|]. split.
+  { intros c Hc. cbn [In] in Hc. change (2 ^ 25) with 33554432. intuition lia. }
+  split; [vm_compute; reflexivity|]. split; vm_compute; reflexivity.
+Qed.
+
+(* the common premises of the G2/G3/G4/t2 theorems on the wavelet coefficients of the example image *)
+Example C04_pipe_example_coeffs :
+  let coeffs := [[-33; 77; -58; 99]; [-136; -104; 153; -37]; [-70; 49; 263; 148]] in
+  pipe_coeffs ex_p (pack_image ex_p ex_samples) = Ok coeffs /\
+  length coeffs = Z.to_nat (pp_nc ex_p) /\ (forall d, In d coeffs -> zlen d = pp_w ex_p * pp_h ex_p) /\
+  (forall d, In d coeffs -> forall v, In v d -> - 2 ^ 25 < v < 2 ^ 25) /\
+  exists cells, pipe_cells ex_p coeffs = Ok cells /\ (3 <= length cells)%nat.
+Proof.
+  cbv zeta. split; [vm_compute; reflexivity|]. split; [reflexivity|]. split.
+  { intros d Hd. cbn [In] in Hd. repeat (destruct Hd as [<-|Hd]; [reflexivity|]). destruct Hd. }
   split.
-  - intros coeffs Ec. vm_compute in Ec. injection Ec as <-.
-    intros d Hd v Hv. cbn [In] in Hd. repeat (destruct Hd as [<-|Hd]; [cbn [In] in Hv; change (2 ^ 25) with 33554432; intuition lia|]). destruct Hd.
-  - intros coeffs cells Ec Ecells. vm_compute in Ec. injection Ec as <-. vm_compute in Ecells. injection Ecells as <-.
-    split.
-    + intros d Hd r cb Hin.
-      assert (Hb : forallb (fun d0 => forallb (fun rc : Z * cblock => zlen (eb_data (eblk ex_p (fst rc) (snd rc))) <=? 65535) (enc_blocks ex_p d0))
-                     [[-33; 77; -58; 99]; [-136; -104; 153; -37]; [-70; 49; 263; 148]] = true) by (vm_compute; reflexivity).
-      rewrite forallb_forall in Hb. specialize (Hb d Hd). rewrite forallb_forall in Hb. specialize (Hb (r, cb) Hin).
-      apply Z.leb_le in Hb. exact Hb.
-    + eexists. eexists. split; [vm_compute; reflexivity|].
-      unfold small_packets. repeat (constructor; [repeat (constructor; [vm_compute; discriminate|])|]); constructor.
+  { intros d Hd v Hv. cbn [In] in Hd. repeat (destruct Hd as [<-|Hd]; [cbn [In] in Hv; change (2 ^ 25) with 33554432; intuition lia|]). destruct Hd. }
+  eexists. split; [vm_compute; reflexivity|]. cbn. lia.
 Qed.
